@@ -1,4 +1,4 @@
-HOOK_COMMITS = ['0781494']
+HOOK_COMMITS = ['0781494', '9f31bee', '091232a']
 NOT_YET = {}
 CLAIMS = {
  'C10': dict(
@@ -9,4 +9,8 @@ CLAIMS = {
    text='Lean theorem (unbounded): over any delivery sequence the duplicate filter accepts no packet number twice (set-refinement invariant of Dedup::insert with the u128 window as Nat mod 2^128). Model compared exactly (result, next, window) with the real Dedup on generated sequences; at-most-once oracle also applied to the implementation output.',
    ref='5.4', technique='Lean 4 invariant proof (Nat.testBit lemmas, omega) + differential execution',
    note='Ideal AEAD assumed; the receive pipeline around Dedup is covered by the system simulator when built.'),
+ 'C07': dict(
+   text='Lean theorems (unbounded): over every interleaving of received datagrams, validation, migration and poll_transmit calls building any datagrams, an unvalidated path is sent at most 3x what it sent plus one datagram minus one byte (amp_bound), and each datagram is started only while budget remains (amp_gate); the gate predicate and its argument are regenerated from paths.rs/connection/mod.rs on every run. Stateless reset strictly smaller than the inciting datagram for every rng draw, and resets spaced by min_reset_interval over any history (constants and expression shapes regenerated from endpoint.rs). Every path transition observed in the simulator (rx/tx snapshots) is validated against the Lean model by the native driver; per-address byte ledgers of the simulator check the property directly on the real server under vanishing/spoofed/replaying clients.',
+   ref='5.7', technique='Lean 4 invariant proof over generated guard + trace validation against the real Connection + simulator oracle',
+   note='Skeleton of poll_transmit (gated loop) modelled; packet contents, MTU probes and off-path responses are observed by the oracle only. short-Initial-no-state not yet covered.'),
 }
